@@ -22,7 +22,7 @@ import (
 func init() { register("C06", "exploration", runC06) }
 
 func runC06(r *ev.Run) {
-	r.SetRule("the harness connector is the remote truth. Histories mix (a) valid updates of every kind (MessagesCreated incl. several mailboxes and already-known messages, MessageFlagsUpdated, MessageMailboxesUpdated, MessageDeleted, MessageUpdated with the same and with new bytes and with AllowCreate, MessageIDChanged, MailboxCreated/Deleted/Updated, Noop), (b) invalid ones (unknown message/mailbox IDs, the protected recovery mailbox, duplicate mailbox names), (c) restatements of the current state and duplicate deliveries, (d) client commands whose remote echoes are delivered afterwards. Oracles: every update is acknowledged (watchdog = inconclusive) and never twice (a second Done panics and is recorded); valid ones with success; after every step and a barrier every mailbox seen by a fresh session equals the remote truth (membership, flags, bytes), untouched messages keep their UIDs and LIST equals the remote mailbox names; after (b) and (c) and after echoes the fresh views (UIDs, UIDNEXT, flags, bytes) are unchanged and a selected observer's NOOP carries no EXISTS/EXPUNGE/FETCH/RECENT. A second part submits bursts of mixed valid/invalid updates from several goroutines and checks one acknowledgement each and convergence. A third part keeps submitting updates while the server is closed or the user removed: every update the server took from the connector must have been acknowledged once Close has returned. distinct = distinct (update kind, variant, ack outcome) triples")
+	r.SetRule("the harness connector is the remote truth. Histories mix (a) valid updates of every kind (MessagesCreated incl. several mailboxes and already-known messages, MessageFlagsUpdated, MessageMailboxesUpdated, MessageDeleted, MessageUpdated with the same and with new bytes and with AllowCreate, MessageIDChanged, MailboxCreated/Deleted/Updated, Noop), (b) invalid ones (unknown message/mailbox IDs, the protected recovery mailbox, duplicate mailbox names), (c) restatements of the current state and duplicate deliveries, (d) client commands whose remote echoes are delivered afterwards. Oracles: every update is acknowledged (watchdog = inconclusive) and never twice (a second Done panics and is recorded); valid ones with success; after every step and a barrier every mailbox seen by a fresh session equals the remote truth (membership, flags, bytes), untouched messages keep their UIDs and LIST equals the remote mailbox names; after (b) and (c) and after echoes the fresh views (UIDs, UIDNEXT, flags, bytes) are unchanged and a selected observer's NOOP carries no EXISTS/EXPUNGE/FETCH/RECENT. A further part delivers MessagesCreated batches of more than 1000 messages for one mailbox, delivers them again and then again with one new message (each acknowledged with success, same UIDs, the new message present). A second part submits bursts of mixed valid/invalid updates from several goroutines and checks one acknowledgement each and convergence. A third part keeps submitting updates while the server is closed or the user removed: every update the server took from the connector must have been acknowledged once Close has returned. distinct = distinct (update kind, variant, ack outcome) triples")
 	r.Assume("client STORE commands in (d) use only flags the connector is told about (\\Seen, \\Flagged) plus the per-mailbox \\Deleted: flags gluon keeps locally are by design overwritten by the next remote flag update; MailboxIDChanged is not exercised as a valid update (a connector has no way to learn internal mailbox IDs), only with unknown IDs")
 
 	hist := r.Pick(300, 3000)
@@ -45,6 +45,16 @@ func runC06(r *ev.Run) {
 		}
 
 		c06Shutdown(r, label)
+	})
+
+	// batches beyond the index's statement-batching limit (1000), delivered, delivered again, and again with news
+	ev.Parallel(r.Pick(2, 12), 4, func(i int) {
+		label := fmt.Sprintf("large-%d", i)
+		if r.OnlyCase != "" && r.OnlyCase != label {
+			return
+		}
+
+		c06LargeBatch(r, label)
 	})
 
 	bursts := r.Pick(30, 300)
@@ -1181,6 +1191,106 @@ func c06History(r *ev.Run, label string, steps int) {
 
 // c06Burst submits many updates from several goroutines at once: every one is acknowledged once,
 // the pipeline keeps going after the failing ones, and the commutative valid ones all took effect.
+// c06LargeBatch delivers one MessagesCreated with more than 1000 messages for one mailbox, delivers it again (a
+// re-sync restates what is known) and once more with one new message added.
+func c06LargeBatch(r *ev.Run, label string) {
+	rng := r.Rand(label)
+
+	w, err := newWorld(r, "C06", label, 1, []string{"INBOX", "Side"}, nil)
+	if err != nil {
+		r.Inconclusive("%s: %v", label, err)
+		return
+	}
+
+	defer w.close()
+
+	conn := w.s.Users[0].Conn
+	inbox, _ := conn.MailboxID("INBOX")
+	side, _ := conn.MailboxID("Side")
+	n := 1001 + rng.Intn(120)
+
+	r.Eval(1)
+
+	var batch []*imap.MessageCreated
+
+	add := func() bool {
+		boxes := []imap.MailboxID{inbox}
+		if rng.Intn(10) == 0 {
+			boxes = append(boxes, side)
+		}
+
+		mc, err := conn.RemoteAddMessage(simpleMessage(w.marker(), nil), imap.NewFlagSet(), c06Date, boxes...)
+		if err != nil {
+			r.Inconclusive("%s: %v", label, err)
+			return false
+		}
+
+		batch = append(batch, mc)
+
+		return true
+	}
+
+	for i := 0; i < n; i++ {
+		if !add() {
+			return
+		}
+	}
+
+	clone := func() imap.Update {
+		out := make([]*imap.MessageCreated, len(batch))
+		for i, m := range batch {
+			cp := *m
+			cp.Message.Flags = m.Message.Flags.Clone()
+			out[i] = &cp
+		}
+
+		return imap.NewMessagesCreated(false, out...)
+	}
+
+	var before *BoxView
+
+	for round, what := range []string{"first delivery", "second delivery of the same batch", "third delivery with one new message"} {
+		if round == 2 && !add() {
+			return
+		}
+
+		ack := conn.Apply(clone(), srv.UpdateTimeout)
+		r.Distinct(fmt.Sprintf("large batch %s n=%s acked=%v err=%v", what, lenClass(len(batch)), ack.Acked, ack.Err != nil))
+
+		if !ack.Acked {
+			r.Inconclusive("%s: %s of %d messages not acknowledged within the watchdog", label, what, len(batch))
+			return
+		}
+
+		if ack.Err != nil {
+			r.Violate("C06 valid-update-rejected MessagesCreated large-batch", fmt.Sprintf("the %s of a MessagesCreated with %d messages for one mailbox was acknowledged with an error: %v", what, len(batch), ack.Err), label, nil)
+			return
+		}
+
+		v, err := freshView(w.s, 0, "INBOX", false)
+		if err != nil {
+			r.Violate("C06 mailbox-not-viewable", err.Error(), label, nil)
+			return
+		}
+
+		if len(v.Msgs) != len(batch) {
+			r.Violate("C06 truth-differs large-batch", fmt.Sprintf("after the %s INBOX holds %d messages, the remote has %d there", what, len(v.Msgs), len(batch)), label, nil)
+			return
+		}
+
+		if before != nil {
+			for i, m := range before.Msgs {
+				if v.Msgs[i].UID != m.UID || v.Msgs[i].Marker != m.Marker {
+					r.Violate("C06 restatement-changed-uids large-batch", fmt.Sprintf("after the %s message %d of INBOX went from UID %d (%s) to UID %d (%s)", what, i+1, m.UID, m.Marker, v.Msgs[i].UID, v.Msgs[i].Marker), label, nil)
+					return
+				}
+			}
+		}
+
+		before = v
+	}
+}
+
 func c06Burst(r *ev.Run, label string) {
 	rng := r.Rand(label)
 
